@@ -46,6 +46,7 @@ pub fn c03_configs(tier: Tier) -> Vec<InCfg> {
                     app_sends: vec![],
                     skip_connect: false,
                     known: vec![],
+                    bp: 0,
                 });
             }
             v.push(InCfg {
@@ -61,6 +62,7 @@ pub fn c03_configs(tier: Tier) -> Vec<InCfg> {
                 app_sends: vec![],
                 skip_connect: false,
                 known: vec![],
+                bp: 0,
             });
         }
     }
@@ -70,10 +72,16 @@ pub fn c03_configs(tier: Tier) -> Vec<InCfg> {
 pub fn c04_configs(tier: Tier) -> Vec<InCfg> {
     let mut v = Vec::new();
     for ver in [Ver::V3, Ver::V5] {
-        for (hauto, pauto, cork) in [(false, false, false), (false, true, false), (true, false, false), (false, false, true)] {
+        // last two variants: write back-pressure episodes - the peer stops / resumes reading at any quiescent
+        // point, the write buffer's high watermark is passed after two responses / after one
+        for (hauto, pauto, cork, bp) in [(false, false, false, 0u8), (false, true, false, 0), (true, false, false, 0), (false, false, true, 0), (false, true, false, 1), (false, false, false, 2)] {
             let mut ep = EpCfg::new(ver, Role::Server);
             ep.handler_auto = hauto;
             ep.proto_auto = pauto;
+            if bp > 0 {
+                // one episode with the watermark at two responses, or two episodes with it at one response
+                ep.write_buf = Some(if bp == 1 { (8, 2, 8) } else { (4, 1, 4) });
+            }
             let mut alphabet = vec![
                 T::Pub { qos: 1, id: 0, len: 1, topic: 0, alias: 0 },
                 T::Pub { qos: 2, id: 0, len: 1, topic: 0, alias: 0 },
@@ -90,7 +98,7 @@ pub fn c04_configs(tier: Tier) -> Vec<InCfg> {
                 connect_props: vec![],
                 alphabet,
                 prologue: vec![],
-                max_len: if tier == Tier::Quick { if cork { 3 } else { 4 } } else { 5 },
+                max_len: if tier == Tier::Quick { if cork || bp > 0 { 3 } else { 4 } } else { 5 },
                 outcomes: vec![GateOutcome::Ok],
                 poutcomes: vec![GateOutcome::Ok],
                 cork,
@@ -98,6 +106,7 @@ pub fn c04_configs(tier: Tier) -> Vec<InCfg> {
                 app_sends: vec![],
                 skip_connect: false,
                 known: vec![],
+                bp,
             });
         }
     }
@@ -139,7 +148,7 @@ pub fn run_c04(tier: Tier) -> i32 {
         }
     }
     ck.rule = format!(
-        "v3 and v5 server: every sequence of up to {} requests over {{PUBLISH q1, PUBLISH q2, PUBREL, PINGREQ, SUBSCRIBE, UNSUBSCRIBE, (v5) AUTH}} with distinct packet ids; publish handler and protocol service each immediately-ready or gated; arrivals one per read or corked into arbitrary groups; handler completions in every order; {} injection(s) while tasks are runnable (quick: full length without injection, one request fewer with one). Oracle after every step: handler-produced responses on the wire are a prefix of the request order; at the end of healthy runs they are exactly the request order",
+        "v3 and v5 server: every sequence of up to {} requests over {{PUBLISH q1, PUBLISH q2, PUBREL, PINGREQ, SUBSCRIBE, UNSUBSCRIBE, (v5) AUTH}} with distinct packet ids; publish handler and protocol service each immediately-ready or gated; arrivals one per read or corked into arbitrary groups; handler completions in every order; two variants with write back-pressure episodes (the peer stops / resumes reading at any quiescent point, 1 episode with an 8-byte or 2 episodes with a 4-byte high watermark of the write buffer, so that the dispatcher's back-pressure state is entered after two / one buffered responses); {} injection(s) while tasks are runnable (quick: full length without injection, one request fewer with one). Oracle after every step: handler-produced responses on the wire are a prefix of the request order; at the end of healthy runs they are exactly the request order",
         if tier == Tier::Quick { 4 } else { 5 },
         ecfg.max_dev
     );
